@@ -288,6 +288,21 @@ fn parse_decision_table(scope: &Scope, decision_table: &DecisionTable) -> Result
       component_names.push(dmntk_feel_parser::parse_name(scope, name, false)?);
     }
   }
+  // a decision table needs at least one output clause and every rule needs one entry per clause
+  if output_values_nodes.is_empty() {
+    return Err(crate::errors::err_decision_table_without_outputs());
+  }
+  for (rule_index, rule) in decision_table.rules.iter().enumerate() {
+    if rule.input_entries.len() != input_expressions_and_values.len() || rule.output_entries.len() != output_values_nodes.len() {
+      return Err(crate::errors::err_decision_table_rule_arity(
+        rule_index + 1,
+        rule.input_entries.len(),
+        rule.output_entries.len(),
+        input_expressions_and_values.len(),
+        output_values_nodes.len(),
+      ));
+    }
+  }
   // parse all rules
   let mut parsed_rules = vec![];
   for rule in &decision_table.rules {
